@@ -60,7 +60,8 @@ def scan_trusted(text, label):
 def evidence_dir(ctx):
     """/verif/evidence is only written by runs against /repo itself; runs against a scratch copy (--repo) write under
     .work so that committed evidence always describes the real tree"""
-    d = os.path.join(ctx.here, "evidence") if os.path.abspath(ctx.repo) == "/repo" else os.path.join(ctx.here, ".work", "evidence-scratch")
+    scratch = os.path.abspath(ctx.repo) != "/repo" or os.environ.get("VERIF_EVIDENCE_SCRATCH")
+    d = os.path.join(ctx.here, ".work", "evidence-scratch") if scratch else os.path.join(ctx.here, "evidence")
     os.makedirs(d, exist_ok=True)
     return d
 
